@@ -138,6 +138,63 @@ fn matrix_rolling2(m: &Mat2Case, obs: &mut Obs) -> CheckResult {
     Ok(())
 }
 
+/// caller-supplied ndarray output buffers that are strided / reversed views of a larger buffer
+fn matrix_nd_out_views(m: &MatCase, obs: &mut Obs) -> CheckResult {
+    use std::mem::MaybeUninit;
+    let stat = STATS[(m.c.p as usize) % STATS.len()];
+    if matches!(stat, Stat::Fdiff(_)) {
+        return Ok(());
+    }
+    let name = format!("ts_v{}", stat.name());
+    let data: Vec<f64> = materialize(&m.c.x);
+    let len = data.len();
+    let step = match m.bk {
+        Backend::NdView { step } => step,
+        _ => [1isize, 2, 3, -1, -2][m.c.w % 5],
+    };
+    let reference: Vec<f64> = tvh::sut::via_vec(len, false, |buf| tvh::sut::roll_valid::<Vec<f64>, f64, Vec<f64>, f64>(&data, stat, m.c.w, m.c.mp, buf)).map_err(|e| Fail { sig: format!("{}:out-path", name), detail: e })?;
+    const SENT: f64 = -123456.75;
+    let st = step.unsigned_abs();
+    let plen = if len == 0 { 0 } else { (len - 1) * st + 1 };
+    let mut parent: Array1<MaybeUninit<f64>> = Array1::from_elem(plen, MaybeUninit::new(SENT));
+    {
+        let view = parent.slice_mut(s![..;step]);
+        debug_assert_eq!(view.len(), len);
+        // input through both driver implementations: Vec (*_to bodies) and a wrapped VecDeque
+        let r: Option<Array1<f64>> = if m.c.out_buf {
+            let dq = make_deque(&data, 3);
+            tvh::sut::roll_valid::<VecDeque<f64>, f64, Array1<f64>, f64>(&dq, stat, m.c.w, m.c.mp, Some(view))
+        } else {
+            tvh::sut::roll_valid::<Vec<f64>, f64, Array1<f64>, f64>(&data, stat, m.c.w, m.c.mp, Some(view))
+        };
+        if r.is_some() {
+            return fail(format!("{}:out-path", name), "a value was returned although a buffer was supplied");
+        }
+    }
+    let all: Vec<f64> = parent.iter().map(|x| unsafe { x.assume_init() }).collect();
+    let got: Vec<f64> = parent.slice(s![..;step]).iter().map(|x| unsafe { x.assume_init() }).collect();
+    let fb = |v: &f64| if v.is_nan() { u64::MAX } else { v.to_bits() };
+    if got.iter().map(fb).collect::<Vec<_>>() != reference.iter().map(fb).collect::<Vec<_>>() {
+        return fail(format!("{}:nd-out-view", name), format!("{} written into an ndarray out view with step {} reads back {:?}, the Vec reference is {:?}", name, step, got, reference));
+    }
+    // nothing outside the view may have been touched
+    let touched = all.iter().filter(|v| **v != SENT || false).count();
+    let expected_touched = got.iter().filter(|v| **v != SENT).count();
+    if touched != expected_touched {
+        return fail(format!("{}:nd-out-view:outside-write", name), format!("{} wrote outside its out view (step {})", name, step));
+    }
+    obs.set_nontrivial(len >= 3 && step != 1);
+    obs.class(match step {
+        1 => "out_view+1",
+        2 => "out_view+2",
+        3 => "out_view+3",
+        -1 => "out_view-1",
+        _ => "out_view-2",
+    });
+    obs.class_if(m.c.out_buf, "vecdeque_input");
+    Ok(())
+}
+
 // ---- mapping functions and aggregations fed from each backend
 
 struct MapAggFn<'c> {
@@ -479,6 +536,20 @@ fn main() {
             })
         },
         |m: &MatCase, obs: &mut Obs| matrix_rolling(m, true, obs),
+    ));
+    let f64_only: &'static [InT] = &[InT::F64];
+    let f64_out: &'static [OutT] = &[OutT::F64];
+    p.add(sub(
+        "matrix:ndarray_out_views",
+        12000,
+        400000,
+        move |tier| {
+            (mat_case(roll_case_of(tier, f64_only, f64_out, 30, 120, 1, ALL_CLASSES)), 0usize..22).prop_map(|(mut m, k)| {
+                m.c.p = k as f64;
+                m
+            })
+        },
+        matrix_nd_out_views,
     ));
     let plain_ins: &'static [InT] = &[InT::F64, InT::I32];
     p.add(sub(
